@@ -303,6 +303,10 @@ func init() {
 	ext(pkgStatus+".Error", "status.Error(c,msg) == New(c,msg).Err()", func(c *ExtCtx) Val {
 		return c.mk(0, c.st.bind("sterr", "Int", "(sErr (mkStatus "+c.args[0].T+" "+c.args[1].T+" 0))"))
 	})
+	ext(pkgStatus+".Errorf", "status.Errorf(c,format,args...) == New(c,<some text>).Err(): the text is left uninterpreted", func(c *ExtCtx) Val {
+		msg := c.st.fresh("errorfMsg", "String")
+		return c.mk(0, c.st.bind("sterr", "Int", "(sErr (mkStatus "+c.args[0].T+" "+msg+" 0))"))
+	})
 	ext("("+pkgCodes+".Code).String", "codes.Code.String(): uninterpreted codeString(c); codeString(OK) == \"OK\"", func(c *ExtCtx) Val {
 		return c.mk(0, "(codeString "+c.args[0].T+")")
 	})
